@@ -160,8 +160,9 @@ class ExpandedTraceback:
         frames = list(tb_e.stack)
         # A SyntaxError has to be handled differently to actually get its output:
         # https://docs.python.org/3/library/traceback.html#traceback.print_exception
-        if isinstance(self.exception, SyntaxError):
-            # A SyntaxError raised by hand (or for a NUL byte) has no position
+        # (one raised by hand without any position names no line that could be shown)
+        if isinstance(self.exception, SyntaxError) and self.exception.lineno is not None:
+            # A SyntaxError raised by hand (or for a NUL byte) can lack the column
             offset = self.exception.offset if self.exception.offset is not None else 1
             if IS_AT_LEAST_PYTHON_310 and not IS_SKULPT:
                 end_lineno = self.exception.end_lineno
